@@ -1064,3 +1064,18 @@ def _m82():
     from bfg9000 import environment as benv
     _patch_source(benv.Environment, 'load', "    if version < 8:\n        data['extra_args'] = []",
                   "    if version < 9:\n        data['extra_args'] = []")
+
+
+@mutant('push_path_no_finally')
+def _m83():
+    # StackContext.push_path: the pop no longer runs when the script body raises
+    from bfg9000.builtins import builtin as bb
+    import contextlib
+
+    @contextlib.contextmanager
+    def push_path(self, path):
+        self.seen_paths.append(path)
+        self.path_stack.append(self.PathEntry(path))
+        yield self.path_stack[-1]
+        self.path_stack.pop()
+    bb.StackContext.push_path = push_path
